@@ -189,6 +189,18 @@ func wireLeg(c *core.Ctx, preds []predCase, predSrcRows [][]octosql.Value) {
 	if c.Only != "" && !strings.HasPrefix(c.Only, "wire-") {
 		return
 	}
+	// octosql puts the plugin sockets under its cache directory (fixed at package initialisation
+	// from HOME / OCTOSQL_PLUGIN_TMP_DIR): <dir>/tmp/plugins/core$testplugin<10 digits>/<ULID>.sock
+	// must fit into sun_path (107 bytes), otherwise the plugin cannot listen — an environment
+	// matter, not a verdict
+	sockBase := filepath.Join(config.OctosqlCacheDir, "tmp", "plugins")
+	if v, ok := os.LookupEnv("OCTOSQL_PLUGIN_TMP_DIR"); ok {
+		sockBase = v
+	}
+	if len(sockBase)+1+len("core$testplugin")+10+1+26+len(".sock") > 107 {
+		c.Inconclusive("socket-path-too-long")
+		return
+	}
 	idx := newOverloadIndex()
 	nScripts := c.Pick(40, 600)
 	scripts := map[string]string{}
@@ -415,7 +427,7 @@ func wireLeg(c *core.Ctx, preds []predCase, predSrcRows [][]octosql.Value) {
 		c.Violation("roundtrip-diff:schema", "predicate table schema: "+d, map[string]interface{}{"id": "wire-preds", "leg": "wire-predicate"})
 		return
 	}
-	nPred := c.Pick(150, 2000)
+	nPred := c.Pick(150, 1500)
 	if nPred > len(preds) {
 		nPred = len(preds)
 	}
